@@ -108,6 +108,15 @@ def histories(rng, tier):
             r = rng.random()
             if r < 0.4:
                 cont.append(gen.upd_line(rng, c, focus=rng.sample(range(c.ncov), min(c.ncov, 3))))
+            elif r < 0.48:
+                # one long row across many coverage pixels on the range path: the result must not depend on the
+                # ORDER of the storage blocks it crosses (seeded change C10g)
+                k0 = rng.randrange(max(1, c.ncov - 4))
+                k1 = min(c.ncov, k0 + rng.randint(3, 6))
+                lo = k0 * c.nfine + rng.randrange(c.nfine)
+                hi = min(c.npix, (k1 - 1) * c.nfine + rng.randint(1, c.nfine))
+                op = rng.choice(c.ops())
+                cont.append('updr x op=%s ranges=%d:%d val=%s path=slice' % (op, lo, hi, c.val(rng)))
             elif r < 0.55:
                 cont.append(gen.updr_line(rng, c))
             elif r < 0.7 and (c.is_int or c.is_flt or c.kind == 'wide'):
